@@ -35,7 +35,7 @@ BLUR_INVS = ["InvWriteOnce", "InvFlatIndexIsBijection", "InvXSlowest", "InvSlotI
 SPATIAL_INVS = ["InvCursorFollowsFrames", "InvSpatialMeanDefinition", "InvSpatialConvex", "InvSpatialConstant",
                 "InvNoSelfCountedTwice", "InvRowOrderIrrelevant", "InvBoolIsFraction", "InvNmaxAboveCounts"]
 WINDOW_INVS = ["InvWindowLenIsFloor", "InvExactMultiple", "InvWindowComplete", "InvWindowCentre",
-               "InvWindowMeanDefinition", "InvRowsAtMostComplete", "InvWindowMeanIsRational"]
+               "InvWindowMeanDefinition", "InvRowsAtMostComplete", "InvWindowMeanIsRational", "InvUndefinedIsLocal"]
 K = 840            # averages over n integers that are multiples of K are integers whenever n divides 840 (every n <= 8)
 DIVISORS = [n for n in range(1, 841) if K % n == 0]
 HEADER = "id     cn     neighborlist\n"
@@ -354,9 +354,15 @@ def window_inputs(case, kind=None):
     return ss, prop, rtol
 
 
+def has_undef(case):
+    return any(u for fr in case.get("undef", []) for u in fr)
+
+
 def window_kind(case):
     if case.get("kind") == "bool":
         return "bool"
+    if has_undef(case):          # undefined entries are rendered as NaN: floating-point representations only
+        return "complex128" if case["C"] == 2 else ("float64", "strided", "fortran")[crc(case["ts"], case["period"]) % 3]
     if case["C"] == 2:
         return ("complex128", "complex128", "complex64")[crc(case["ts"], case["period"]) % 3]
     return WINDOW_REAL_KINDS[crc(case["ts"], case["period"], case["N"]) % len(WINDOW_REAL_KINDS)]
@@ -366,10 +372,18 @@ def replay_window(chk, case, lib):
     time_average = lib["time_average"]
     kind = window_kind(case)
     ss, prop, rtol = window_inputs(case, kind)
+    undef = has_undef(case)
+    if undef:
+        prop = np.array(prop, copy=True) if kind in ("float64", "complex128") else prop
+        for f, fr in enumerate(case["undef"]):
+            for i, u in enumerate(fr):
+                if u:
+                    prop[f, i] = np.nan
     period = case["period"][0] / case["period"][1]
     dt = case["dt"][0] / case["dt"][1]
     brief = {k: case[k] for k in ("m", "T", "N", "C", "kind", "ts", "dt", "period", "w")}
     brief["dtype"] = kind
+    brief["undefined_entries"] = [[f, i + 1] for f, fr in enumerate(case.get("undef", [])) for i, u in enumerate(fr) if u]
     try:
         res, mid = time_average(ss, prop, time_period=period, dt=dt)
     except Exception as e:
@@ -389,7 +403,14 @@ def replay_window(chk, case, lib):
             return
         m = np.array([[q[0] / q[1] for q in pi] for pi in e["mean"]])
         expv = m[:, 0] + 1j * m[:, 1] if case["C"] == 2 else m[:, 0]
-        if not close_arr(res[n], expv, rtol=rtol, atol=rtol):
+        dfn = np.array(e.get("def", [1] * case["N"]), dtype=bool)
+        if undef:
+            # a window is undefined (NaN) for a particle iff it contains one of its undefined frames
+            if not np.array_equal(~np.isnan(np.asarray(res[n])), dfn):
+                chk.violation("WindowMean:UndefinedIsLocal", dict(brief, n=n, defined_expected=dfn.astype(int).tolist(),
+                                                                  observed=str(res[n].tolist()), full=case))
+                return
+        if not close_arr(np.asarray(res[n])[dfn], expv[dfn], rtol=rtol, atol=rtol):
             chk.violation("WindowMean", dict(brief, n=n, expected=str(expv.tolist()), observed=str(res[n].tolist()), full=case))
             return
     count_kind(chk, "window", kind)
